@@ -28,6 +28,13 @@ Definition c_gt    : ascii := ">"%char.
 Definition c_eq    : ascii := "="%char.
 Definition c_bar   : ascii := "|"%char.
 
+(* literals are written as lists of characters: the String type must not reach the
+   extracted code, where it would shadow the string type of OCaml *)
+Definition s_and : str := ["a"%char; "n"%char; "d"%char].
+Definition s_or  : str := ["o"%char; "r"%char].
+Definition s_ampamp : str := ["&"%char; "&"%char].
+Definition s_barbar : str := ["|"%char; "|"%char].
+
 (* longest prefix whose characters satisfy p, and the rest *)
 Fixpoint span (p : ascii -> bool) (x : str) : str * str :=
   match x with
@@ -148,7 +155,9 @@ Definition match_prefix_digits (pre y : str) : option str :=
     if all_digits r then Some r else None
   else None.
 
-Definition regex_meta (c : ascii) : bool := mem_ascii c (lit "\^$.|?+*([{)]}").
+Definition regex_meta (c : ascii) : bool :=
+  mem_ascii c ["\"%char; "^"%char; "$"%char; "."%char; "|"%char; "?"%char; "+"%char; "*"%char;
+               "("%char; "["%char; "{"%char; ")"%char; "]"%char; "}"%char].
 
 (* one round of the loop body up to the comparison: (c12AreIntegral, cmp(c1[i], c2[i])) *)
 Definition cmp_component (x y : str) : res (bool * comparison) :=
@@ -261,43 +270,43 @@ Definition rel (op : relop) (c : comparison) : bool :=
 
 Definition relop_text (op : relop) : str :=
   match op with
-  | RLt => lit "<" | RLe => lit "<=" | REq => lit "==" | RGe => lit ">=" | RGt => lit ">"
+  | RLt => [c_lt] | RLe => [c_lt; c_eq] | REq => [c_eq; c_eq] | RGe => [c_gt; c_eq] | RGt => [c_gt]
   end.
 
 (* what re.split leaves once the blank pieces are filtered out: relational operators and
    the double bar (captured separators) and the text between separators *)
 Inductive tok := TRel (op : relop) | TOrOr | TText (x : str).
 
-Definition flush (cur : str) (l : list tok) : list tok :=
+Definition flush_text (cur : str) (l : list tok) : list tok :=
   match cur with [] => l | _ :: _ => TText (rev cur) :: l end.
 
 (* re.split of \s*(<=?|>=?|==|\|\||\s)\s* ; cur is the text collected so far, reversed *)
 Fixpoint tokenize (cur : str) (s : str) : list tok :=
   match s with
-  | [] => flush cur []
+  | [] => flush_text cur []
   | c :: r =>
-      if is_space c then flush cur (tokenize [] r)
+      if is_space c then flush_text cur (tokenize [] r)
       else if ascii_eqb c c_lt then
         match r with
-        | d :: r' => if ascii_eqb d c_eq then flush cur (TRel RLe :: tokenize [] r')
-                     else flush cur (TRel RLt :: tokenize [] r)
-        | [] => flush cur (TRel RLt :: tokenize [] r)
+        | d :: r' => if ascii_eqb d c_eq then flush_text cur (TRel RLe :: tokenize [] r')
+                     else flush_text cur (TRel RLt :: tokenize [] r)
+        | [] => flush_text cur (TRel RLt :: tokenize [] r)
         end
       else if ascii_eqb c c_gt then
         match r with
-        | d :: r' => if ascii_eqb d c_eq then flush cur (TRel RGe :: tokenize [] r')
-                     else flush cur (TRel RGt :: tokenize [] r)
-        | [] => flush cur (TRel RGt :: tokenize [] r)
+        | d :: r' => if ascii_eqb d c_eq then flush_text cur (TRel RGe :: tokenize [] r')
+                     else flush_text cur (TRel RGt :: tokenize [] r)
+        | [] => flush_text cur (TRel RGt :: tokenize [] r)
         end
       else if ascii_eqb c c_eq then
         match r with
-        | d :: r' => if ascii_eqb d c_eq then flush cur (TRel REq :: tokenize [] r')
+        | d :: r' => if ascii_eqb d c_eq then flush_text cur (TRel REq :: tokenize [] r')
                      else tokenize (c :: cur) r
         | [] => tokenize (c :: cur) r
         end
       else if ascii_eqb c c_bar then
         match r with
-        | d :: r' => if ascii_eqb d c_bar then flush cur (TOrOr :: tokenize [] r')
+        | d :: r' => if ascii_eqb d c_bar then flush_text cur (TOrOr :: tokenize [] r')
                      else tokenize (c :: cur) r
         | [] => tokenize (c :: cur) r
         end
@@ -305,11 +314,11 @@ Fixpoint tokenize (cur : str) (s : str) : list tok :=
   end.
 
 Definition tok_text (t : tok) : str :=
-  match t with TRel op => relop_text op | TOrOr => lit "||" | TText x => x end.
+  match t with TRel op => relop_text op | TOrOr => s_barbar | TText x => x end.
 
 (* ^[-+.:/\w]+$ *)
 Definition is_vername (x : str) : bool :=
-  nonempty x && forallb (fun c => is_word c || mem_ascii c (lit "-+.:/")) x.
+  nonempty x && forallb (fun c => is_word c || mem_ascii c [c_minus; c_plus; c_dot; ":"%char; "/"%char]) x.
 
 (* the classification the loop of version_match applies to the pieces, in its order *)
 Inductive item :=
@@ -328,9 +337,9 @@ Fixpoint items (toks : list tok) : list item :=
       end
   | TOrOr :: rest => IOr :: items rest
   | TText x :: rest =>
-      if is_vername x && negb (str_eqb x (lit "and") || str_eqb x (lit "or")) then ITerm REq x :: items rest
-      else if str_eqb x (lit "or") then IOr :: items rest
-      else if str_eqb x (lit "&&") || str_eqb x (lit "and") then IAnd :: items rest
+      if is_vername x && negb (str_eqb x s_and || str_eqb x s_or) then ITerm REq x :: items rest
+      else if str_eqb x s_or then IOr :: items rest
+      else if str_eqb x s_ampamp || str_eqb x s_and then IAnd :: items rest
       else [IBreak]
   end.
 
